@@ -228,6 +228,8 @@ def main(check, argv=None):
         'real_components': check.REAL,
         'stub_components': check.STUBS,
         'hash_seed': os.environ.get('PYTHONHASHSEED'),
+        'decimal_implementation': world.DECIMAL_IMPL,
+        'library_under_test': world.REPO_SRC,
         'workers': batch['workers'],
         'harness_errors': len(batch['harness_errors']),
         'replays': [os.path.relpath(p, core.VERIF_DIR) for p in reported],
